@@ -31,7 +31,7 @@ var renderedWrappers = func() []int {
 var c03Families = []*family{
 	{name: "f", ctors: []string{"NewFile"}, paths: []string{"a/f", "b/f", "c/F", "x/f1", "y/pkg_f"},
 		names:   map[string]string{"a/f": "f", "b/f": "f", "c/F": "f", "x/f1": "f1", "y/pkg_f": "pkg_f"},
-		aliases: []string{"f", "f1", "pkg_f", "_"}, prefixes: []string{"pkg", "pkg_"}, maxRefs: 4, freeRefs: 3, wrappers: []int{0, imp.WrapperIndex("dictkey"), imp.WrapperIndex("caseblock")}, anon: true},
+		aliases: []string{"f", "f1", "pkg_f", "_"}, prefixes: []string{"pkg", "pkg_"}, maxRefs: 4, freeRefs: 3, wrappers: []int{0, imp.WrapperIndex("dictkey"), imp.WrapperIndex("caseblock")}, anon: true, oneDict: true},
 	{name: "rand", ctors: []string{"NewFile"}, paths: []string{"math/rand", "crypto/rand", "x/rand", "y/rand1", "text/template", "html/template"},
 		names:   map[string]string{"x/rand": "rand", "y/rand1": "rand1"},
 		aliases: []string{"rand", "rand1", "template"}, prefixes: []string{"p"}, maxRefs: 4, freeRefs: 3, wrappers: []int{0}, anon: true},
